@@ -30,3 +30,30 @@ _c("space_left",
    params={"self": "Bar"}, returns="real", modifies=[],
    ensures=[("current-beat-plus-space-left-is-the-length", "feq(self.current_beat + result, self.length)")],
    battery="bars_filled")
+
+# placement: one call, any bar state (the entry list has unknown length), floats as reals.  The acceptance test is
+# the coded one (total + 1/value <= length + 1e-9, or the unbounded meter); for the documented value vocabulary it
+# coincides with the exact rational criterion of the property (that coincidence is the driver's subject).
+_ROOM = "(self.current_beat + 1 / duration <= self.length + 0.000000001 or self.length == 0)"
+_PLACE = dict(
+    requires="duration > 0", returns="bool",
+    old={"old_beat": "self.current_beat", "old_len": "len(self.bar)", "old_bar": "self.bar", "old_length": "self.length"},
+    cases=[dict(when=_ROOM, returns="bool", ensures=[
+                ("accepted", "result == True"),
+                ("appends-exactly-one-entry", "len(self.bar) == old_len + 1"),
+                ("entry-is-start-beat-value-content",
+                 "self.bar[len(self.bar) - 1][0] == old_beat and self.bar[len(self.bar) - 1][1] == duration and "
+                 "same_object(self.bar[len(self.bar) - 1][2], notes)"),
+                ("earlier-entries-untouched", "list_prefix_same(self.bar, old_bar, old_len)"),
+                ("current-beat-advances-by-the-length", "feq(self.current_beat, old_beat + 1 / duration)"),
+                ("bar-length-untouched", "self.length == old_length")]),
+           dict(when=None, returns="bool", ensures=[
+                ("refused", "result == False"),
+                ("and-nothing-changes", "len(self.bar) == old_len and list_prefix_same(self.bar, old_bar, old_len) and "
+                                        "self.current_beat == old_beat and self.length == old_length")])],
+    modifies=["param:self", "param:self.bar"], battery="bar_place")
+_c("place_notes", params={"self": "Bar", "notes": "None", "duration": "real"},
+   variants=[dict(name="container", params={"self": "Bar", "notes": "NoteContainer", "duration": "real"}),
+             dict(name="int-value", params={"self": "Bar", "notes": "None", "duration": "int"})],
+   **_PLACE)
+CLASSES["NoteContainer"] = {"class": "mingus.containers.note_container.NoteContainer", "fields": {"notes": "[Note]"}}
